@@ -152,8 +152,16 @@ def abstract_interpret(asm):
         while k < len(lines) and not lines[k].startswith('mov %rsp, -'): k += 1
         lines = lines[k + 1:]
         state = (0, 0); at_label = {}; dead = False
-        dyn = False; sym = None
+        dyn = False; sym = None; numfwd = {}; numdef = {}
         for idx, l in enumerate(lines):
+            nm = re.match(r'(\d+):$', l)
+            if nm:
+                n = nm.group(1)
+                for st in numfwd.pop(n, []):
+                    if dead: state = st; dead = False
+                    elif st != state and not dyn: probs.append('%s: paths join at local label %s with different states %s vs %s' % (name, n, st, state))
+                numdef[n] = state; dead = False
+                continue
             lm = re.match(r'(\.L[A-Za-z_0-9.$]*):$', l)
             if lm:
                 lab = lm.group(1)
@@ -167,6 +175,12 @@ def abstract_interpret(asm):
                 continue
             if dead: continue
             d, x = state
+            jn = re.match(r'(jmp|je|jne|jns|js|jae|jb|jl|jle|jg|jge|ja|jbe|jz|jnz|jp|jnp)\s+(\d+)([fb])$', l)
+            if jn:
+                if jn.group(3) == 'f': numfwd.setdefault(jn.group(2), []).append(state)
+                elif numdef.get(jn.group(2)) not in (None, state) and not dyn: probs.append('%s: backward jump to local label %s with a different state' % (name, jn.group(2)))
+                if jn.group(1) == 'jmp': dead = True
+                continue
             jm = re.match(r'(jmp|je|jne|jns|js|jae|jb|jl|jle|jg|jge|ja|jbe|jz|jnz|jp|jnp)\s+(\.L[A-Za-z_0-9.$]*)', l)
             if jm:
                 lab = jm.group(2)
